@@ -38,15 +38,20 @@ def shapes():
         ("two-parallel-fail", g(3, [[], [], [1, 2]], ["exp", "exp", "group"], [True, True, False]), 2, {"//:t2": 3}),
         ("three-parallel-j3-fail", g(4, [[], [], [], [1, 2, 3]], ["exp", "exp", "exp", "group"], [True, True, True, False]), 3,
          {"//:t1": 3, "//:t3": {"signal": 9}}),
+        # a task that cannot be LAUNCHED (fork/exec fails) earlier in the same run, other tasks still to run: whatever the
+        # failed launch left behind must not change what an interrupt does afterwards
+        ("launch-failure-then-two", g(4, [[], [], [], [1, 2, 3]], ["exp", "exp", "cmd", "group"], [True, True, False, False]), 2,
+         {}, ["//:t1"]),
     ]
 
 
 def make(shape, seed, abort_at=None, after_fork=None, sig="SIGINT", log=False):
     name, g, jobs = shape[:3]
     codes = shape[3] if len(shape) > 3 else {}
+    fail_launch = shape[4] if len(shape) > 4 else []
     scn = RC.scenario_from_graph(g, placement=0, jobs=jobs,
                                  sched={"seed": seed, "p_exit": 0.08 if not codes else 0.3, "p_deliver": 0.5 if not codes else 0.25,
-                                        "allow_steal": False, "codes": codes})
+                                        "allow_steal": False, "codes": codes, "fail_launch": fail_launch})
     scn["abort_at"] = abort_at
     scn["abort_after_fork"] = after_fork
     scn["abort_sig"] = sig
